@@ -65,16 +65,17 @@ def build_cases(tier, seed):
     nunk = 0
     for ty in UNKNOWN_TYPES:
         for size in UNKNOWN_SIZES:
-            for variant in range(4):
+            for variant in range(6):
                 body = bytes(rnd.randrange(256) for _ in range(max(size, 16) - 16))
                 while b'LOBJ' in body:
                     body = body.replace(b'LOBJ', b'LOBx')
                 sub = 'plain'
-                if variant == 1 and size >= 16 + 48:
+                if variant in (1, 4, 5) and size >= 16 + 48:
                     fake = blf.can_message(999999)
-                    body = fake + body[len(fake):]
+                    at = 0 if variant == 1 else min(len(body) - len(fake), rnd.choice([0, 20, 40]))
+                    body = body[:at] + fake + body[at + len(fake):]
                     sub = 'fake-object-inside'
-                elif variant == 1:
+                elif variant in (1, 4, 5):
                     continue
                 padded = variant == 2 and size % 4
                 if variant == 2 and not size % 4:
@@ -88,9 +89,11 @@ def build_cases(tier, seed):
                     uid += 1
                     if k < 2:
                         stream += blf.unknown_object(ty, size, body) + (b'\0' * (size % 4) if padded else b'')
-                if variant == 3:
-                    cs = rnd.choice([7, 16, 33])        # skip target lies in containers that are not decoded yet
-                    sub = 'small-containers'
+                if variant in (3, 4, 5):
+                    cs = rnd.choice([7, 16, 33]) if variant != 5 else 48 + 16 + rnd.choice([8, 24, 32])   # skip target lies in containers that are not decoded yet
+                    sub += '+small-containers' if variant != 3 else ''
+                    if variant == 3:
+                        sub = 'small-containers'
                 else:
                     cs = rnd.choice([len(stream), 64, 100, 1000, 5000])
                 cases.append(('unknown type=%d size=%d %s%s cs=%d' % (ty, size, sub, ' padded' if padded else '', cs), stream, exp, cs, 'unknown'))
@@ -117,6 +120,15 @@ def run(tier, replay=None):
     sh.keep_prefix = '@ids '
     sh.run()
     common.absorb(res, sh)
+    # second pass over the unknown-object files with a 64-byte buffer and queue capacity 10: the parser then reaches a skip
+    # target before the inflater has delivered it on every run, not only when the timing happens to allow it
+    first_unknown = next(i for i, c in enumerate(cases) if c[4] == 'unknown')
+    sh2 = common.Sharded(exe, lambda a, b: ['ids', common.seed(), a + first_unknown, b + first_unknown, lst], len(paths) - first_unknown,
+                         env=common.san_env(dict(VERIF_TMP=d, VERIF_IDS_LIMITS='10,64')), tag='c09b', timeout=1500)
+    sh2.keep_prefix = '@ids '
+    sh2.run()
+    common.absorb(res, sh2)
+    sh.kept += sh2.kept
     seen = 0
     kinds = {}
     for line in sh.kept:
@@ -154,7 +166,7 @@ def run(tier, replay=None):
                 '(type, id, crc32 of re-encoding) sequence == K1..Kn; distinct = exhaustive fillers + unknown-object cases'
                 % (nexh, 6 if tier == 'quick' else 8, nrand, len(UNKNOWN_TYPES), len(UNKNOWN_SIZES)))
     res.samples = [c[0] for c in cases[:3]] + [c[0] for c in cases[-3:]]
-    res.extra = dict(files=len(cases), files_reported=seen, exhaustive_fillers=nexh, random_fillers=nrand, unknown_object_cases=nunk, by_kind=kinds)
-    if seen < len(cases) and not (sh.crashes or sh.hangs):
+    res.extra = dict(files=len(cases), sessions_reported=seen, unknown_object_files_also_run_with_tiny_limits=len(cases) - first_unknown, exhaustive_fillers=nexh, random_fillers=nrand, unknown_object_cases=nunk, by_kind=kinds)
+    if seen < len(cases) + (len(cases) - first_unknown) and not (sh.crashes or sh.hangs or sh2.crashes or sh2.hangs):
         res.inconclusive.append('only %d of %d files reported' % (seen, len(cases)))
     return res.finish()
